@@ -68,10 +68,50 @@ def eff(r, g):
     return g if (r <= 0 or g < r) else r
 
 
+def wide_nodes(ck, binary, tier):
+    """nodes with more subject sets than the storage layer fetches per statement (1000): Traverse.tla"""
+    cfg = write_cfg(['Mode = "small"', "MaxN = %d" % (7 if tier == "quick" else 9), "PS = 3"], invariants=["ScanCorrect"])
+    r = tlc("Traverse", "a.cfg", files={"a.cfg": cfg}, want_lines=False, workers=8, heap="2g")
+    ck.add_tlc(r)
+    if r.violation:
+        ck.violation("Traverse.tla: " + r.violation, {"tlc": r.raw_tail[-2000:]})
+    cfg = write_cfg(['Mode = "sizes"', "MaxN = 0", "PS = 1000"], invariants=["ScanCorrect"])
+    z = tlc("Traverse", "b.cfg", files={"b.cfg": cfg}, workers=8, heap="2g", javaopts=["-Xss256m"])
+    ck.add_tlc(z)
+    cases = [l for l in z.lines if "n" in l]
+    if tier == "quick":
+        cases = [c for c in cases if c["n"] in (0, 1, 999, 1001, 2001)]
+    recs = {x["case"]: x for x in run_harness(binary, "traverse", {"cases": [{"n": c["n"], "found": c["found"]} for c in cases]})}
+    for i, c in enumerate(cases):
+        ob = recs.get(i)
+        if ob is None:
+            raise Inconclusive("wide case %d not replayed" % i)
+        ck.evaluations += 1
+        cid = {"subject_sets_on_node": c["n"], "directly_containing_the_subject": c["found"]}
+        if ob.get("error"):
+            ck.violation("traversal failed: " + ob["error"][:200], cid)
+            continue
+        if ob["count"] != c["count"] or (c["count"] and (ob["last"] != c["last"] or ob["first"] != 1 or not ob["consecutive"])):
+            ck.violation("TraverseSubjectSetExpansion returned %d rows (last %s), the traversal model says %d (last %d)" % (
+                ob["count"], ob.get("last"), c["count"], c["last"]), cid)
+        if ob["nfound"] != (1 if c["found"] else 0):
+            ck.violation("TraverseSubjectSetExpansion reports %d found rows" % ob["nfound"], cid)
+        # the engine on the same node: u is a direct member of the found sets, v is two hops below set `deep`, nobody is nowhere
+        want = {"u": bool(c["found"]), "v": c["n"] > 0, "nobody": False}
+        for who, w in want.items():
+            if ob["check_" + who] != w:
+                ck.violation("check on a node with %d subject sets answered %s for a subject that is %s a member (width and depth not binding)" % (
+                    c["n"], ob["check_" + who], "" if w else "not"), dict(cid, subject=who, second_hop_below_row=ob["deep"], error=ob.get("check_%s_err" % who)))
+        if c["n"] > 1000:
+            ck.nontrivial.add(("wide", c["n"], tuple(c["found"])))
+    ck.extra["wide_node_cases"] = len(cases)
+
+
 def c01(tier):
     ck = Check("C01", tier)
     binary = build_harness()
     p = TIERS[tier]
+    wide_nodes(ck, binary, tier)
     defs, groups = oracle(tier, FAMS_QUICK, ck)
     dmax = p["dmax"]
     rdepths = list(range(1, dmax + 1))
@@ -119,6 +159,7 @@ def c01(tier):
                "undisturbed and under seeded delay schedules. Non-trivial: limits not binding and (RefSem allowed or >= 2 stored tuples).")
     ck.exhaustive = (p["sample"] == 0)
     ck.assumptions = ["sqlite in-memory backend only", "strict mode asserted on stores that conform to the declared types",
+                      "for nodes with 999..2001 subject sets the expected check answer is the reference semantics by construction of the case (direct member / two hops / nowhere); the page loop itself is specified by Traverse.tla",
                       "schedules are perturbed by seeded delays at storage calls, not enumerated"]
     ck.finish()
 
